@@ -212,5 +212,6 @@ Inv == err = ""
 HugeInv == Recs[l].kind = "hugefile" =>
              /\ Recs[l].readerOk                        \* structurally valid: every chunk found, nothing left over
              /\ Recs[l].declared = Recs[l].tracks       \* exactly --track chunks, as the header says
-             /\ Recs[l].eots = Recs[l].tracks /\ Recs[l].format = 1
+             /\ Recs[l].eots = Recs[l].tracks /\ Recs[l].format = (IF Recs[l].tracks = 1 THEN 0 ELSE 1)
+             /\ Recs[l].unmatched = 0 /\ Recs[l].hanging = 0   \* every note-on closed, nothing released that was not struck
 =============================================================================
